@@ -302,8 +302,9 @@ def parse_race_reports(text, info, scenario=None):
             refl = set() if is_write else set(a["field"] for a in accs if a.get("reflective"))   # reflective entries are reads
             cand = exact or refl
             inner = next((fn for fn, _, _, _ in frames if not fn.startswith(("runtime.", "reflect.", "sync/atomic."))), frames[0][0] if frames else "?")
+            libfns = [_short_fn(fn) for fn, _, _, full in frames if "hashicorp/eventlogger" in fn and "verifharness" not in fn and full.startswith(V.REPO)]
             sides.append({"write": is_write, "frame": lib, "accesses": accs, "cand": cand, "reflective": bool(refl) and not exact,
-                          "fn": _short_fn(lib[0]) if lib else "?", "inner": inner})
+                          "fn": _short_fn(lib[0]) if lib else "?", "inner": inner, "libfns": libfns})
         a, b = sides
         field, via = "?", None
         if a["cand"] & b["cand"]:
@@ -318,10 +319,13 @@ def parse_race_reports(text, info, scenario=None):
                     continue
                 if other["inner"].startswith(("bytes.(*Buffer)", "encoding/json.")):
                     hitf = None
-                    for callee in calls.get(other["fn"], []):
-                        hit = written_by.get(callee, set()) & known["cand"]
-                        if hit:
-                            hitf = (sorted(hit)[0], callee)
+                    for lf in other["libfns"]:        # the function that filled the buffer, or one of its callers, publishes it
+                        for callee in calls.get(lf, []):
+                            hit = written_by.get(callee, set()) & known["cand"]
+                            if hit:
+                                hitf = (sorted(hit)[0], callee)
+                                break
+                        if hitf:
                             break
                     if hitf:
                         field, via = hitf[0], other["fn"]
@@ -425,7 +429,7 @@ def _lockh(ctx, part):
         return None
     d = os.path.join(ctx.work, "lockh-out")
     os.makedirs(d, exist_ok=True)
-    args = [binp, "-out", d, "-watchdog", "2s" if ctx.tier == "quick" else "5s", "-repeat", "1" if ctx.tier == "quick" else "6",
+    args = [binp, "-out", d, "-watchdog", "2s" if ctx.tier == "quick" else "5s", "-repeat", "1" if ctx.tier == "quick" else "40",
             "-parallel", "8"]
     corpus = os.path.join(V.VERIF, "corpus", "C12", "lockh.jsonl")
     if os.path.exists(corpus):
@@ -507,7 +511,7 @@ def _stress(ctx, part, info):
         rp = V.write_replay(ctx, "harness-build", {"kind": "correspondence", "output": out[-4000:]})
         ctx.violations.append({"match": "harness-build", "replay": rp, "what": "stressh no longer builds (-race) against the tree", "no_input": True})
         return None
-    nrandom, events = ("6", "120") if ctx.tier == "quick" else ("60", "400")
+    nrandom, events = ("6", "120") if ctx.tier == "quick" else ("240", "400")
     rc, out = V.run([binp, "-list", "-random", nrandom, "-events", events], env=dict(os.environ, VERIF_SEED=str(ctx.seed)))
     scenarios = [json.loads(l) for l in out.splitlines() if l.startswith("{")]
     corpus = os.path.join(V.VERIF, "corpus", "C19", "stressh.jsonl")
@@ -625,7 +629,7 @@ def _conch_cases(ctx, part):
         return
     d = os.path.join(ctx.work, "conch-out")
     os.makedirs(d, exist_ok=True)
-    args = [binp, "-out", d, "-cases", "300" if ctx.tier == "quick" else "4000", "-ops", "12" if ctx.tier == "quick" else "14",
+    args = [binp, "-out", d, "-cases", "300" if ctx.tier == "quick" else "12000", "-ops", "12" if ctx.tier == "quick" else "14",
             "-sends", "8" if ctx.tier == "quick" else "12"]
     corpus = os.path.join(V.VERIF, "corpus", "C04", "conch.jsonl")
     if os.path.exists(corpus):
@@ -696,7 +700,7 @@ def _conch_race(ctx, part, info):
         ctx.violations.append({"match": "harness-build", "replay": rp, "what": "conch no longer builds (-race) against the tree", "no_input": True})
         return []
     from concurrent.futures import ThreadPoolExecutor
-    nproc, ncases = (4, "40") if ctx.tier == "quick" else (8, "600")
+    nproc, ncases = (4, "40") if ctx.tier == "quick" else (8, "2000")
     base = os.path.join(ctx.work, "conch-race-out")
 
     def one(i):
